@@ -95,6 +95,7 @@ struct Params
     int cscale = 1;  // objects per count index
     int arena1 = 0;  // arena of slot 1 / of elements constructed "with another allocator"
     std::vector<int> fixed_choices{0, 1, 3};
+    int wide = 0;       // 1: "wide" runs - capacities {0,1,nmax-1,nmax}, the macro operation fill, erase at selected positions
     int fault_ops = 0;  // > 0: the alphabet contains fail(1..fault_ops) in front of the strong-guarantee operations
     bool on(const char* p) const { return active.count(p) != 0; }
 };
@@ -534,6 +535,21 @@ struct Engine
                 Elem e = LS::make_elem(mex(), counts_of(o), m[t].fixed);
                 LS::emplace(*v[t], e);
                 m[t].el.push_back(e);
+                break;
+            }
+            case O_FILL:
+            {
+                pre_empty = m[t].el.empty();
+                for (std::size_t j = m[t].el.size(); j < m[t].cap; ++j)
+                {
+                    std::vector<std::size_t> c(LS::NV);
+                    for (std::size_t i = 0; i < LS::NV; ++i)
+                        c[i] = ((j + static_cast<std::size_t>(o.a[1]) + i) % (static_cast<std::size_t>(prm.cmax) + 1)) * static_cast<std::size_t>(prm.cscale);
+                    if (LS::payload_bytes(c) > m[t].budget - m[t].used()) break;
+                    Elem e = LS::make_elem(mex(), c, m[t].fixed);
+                    LS::emplace(*v[t], e);
+                    m[t].el.push_back(e);
+                }
                 break;
             }
             case O_PB:
@@ -1874,6 +1890,12 @@ struct Engine
             return x.val;
         else if constexpr (std::is_same_v<T, Str>)
             return static_cast<long>(x.size()) + (x.empty() ? 0 : x[0]);
+        else if constexpr (std::is_same_v<T, Big32>)
+            return x.v + x.pad[6];
+        else if constexpr (std::is_same_v<T, Emp>)
+            return 0;
+        else if constexpr (std::is_same_v<T, Ptr>)
+            return x ? *x : 0;
         else
             return static_cast<long>(x);
     }
@@ -2317,9 +2339,27 @@ struct Engine
                 if (k == LS::NV) break;
             }
         }
+        if (prm.wide && n < mm.cap)
+        {
+            out.push_back(mk(O_FILL, t, 0));
+            if (LS::NV > 0) out.push_back(mk(O_FILL, t, 1));
+        }
         if (n > 0) out.push_back(mk(O_PB, t));
 #if HAVE_ERASE
-        if (reduced)
+        if (prm.wide)
+        {
+            // selected positions: both ends, their neighbours and the middle
+            std::vector<std::size_t> pos;
+            for (std::size_t q : {std::size_t{0}, std::size_t{1}, n / 2, n >= 2 ? n - 2 : 0, n >= 1 ? n - 1 : 0, n})
+                if (q <= n && std::find(pos.begin(), pos.end(), q) == pos.end()) pos.push_back(q);
+            std::sort(pos.begin(), pos.end());
+            for (auto i : pos)
+                if (i < n) out.push_back(mk(O_ER1, t, static_cast<int>(i)));
+            for (auto i : pos)
+                for (auto j : pos)
+                    if (i <= j) out.push_back(mk(O_ER2, t, static_cast<int>(i), static_cast<int>(j)));
+        }
+        else if (reduced)
         {
             if (n > 0) out.push_back(mk(O_ER1, t, 0));
             if (n > 1) out.push_back(mk(O_ER2, t, 0, static_cast<int>(n)));
@@ -2402,6 +2442,7 @@ struct Engine
             for (int n = 0; n <= prm.nmax; ++n)
             {
                 if (small && n != 0 && n != prm.nmax) continue;
+                if (prm.wide && n > 1 && n < prm.nmax - 1) continue;
                 for (int b : {0, prm.bmax})
                 {
                     if (LS::NV == 0 && b != 0) continue;
